@@ -1041,6 +1041,49 @@ Proof.
     + destruct H as [outs [_ [_ A3]]]. destruct (A3 j o Hj) as [v [_ [_ B]]]. now rewrite B.
 Qed.
 
+(* the same, with the whole list Result.output (it does not depend on the store the run started from) *)
+Theorem run_from_substore_outs body user p inputs D rs :
+  body_arity body ->
+  request_ok p inputs = true -> denote_run body p inputs user = Ok D ->
+  topo_list p -> producers_before p [] (generations p) ->
+  (forall f, In f p -> In f (concat (generations p))) ->
+  (forall g, In g p -> fsub body p inputs D rs g) ->
+  exists ps, map_run_sel body p inputs user None rs = ROk ps
+    /\ (forall f, In f p -> ffull body p inputs D (p_store ps) f)
+    /\ (forall f o, In f p -> In o (fouts f) -> dict_get (p_out ps) o = dict_get (d_out D) o)
+    /\ Forall (dump_den body p inputs D) (p_tr ps)
+    /\ p_out ps = flat_map (den_entries D) (concat (generations p)).
+Proof.
+  intros Harity Hreq Hden Htopo Hpb Hall Hsub.
+  unfold request_ok in Hreq. apply andb_true_iff in Hreq as [Hreq _]. apply andb_true_iff in Hreq as [Hok Hnd].
+  apply nodup_str_NoDup in Hnd. destruct (NoDup_app_inv _ _ Hnd) as [Hndo [_ Hdisj]].
+  unfold denote_run in Hden.
+  set (d0 := {| d_env := inputs; d_shapes := init_shapes inputs; d_out := [] |}) in *.
+  destruct (denote_fold_facts body user p d0 D Hok Htopo) as [HD _]; [intros; reflexivity | exact Hndo | exact Hden|].
+  destruct (denote_fold_env body user p d0 D Hok Hden) as [Henv Hshapes]. cbn [d_env d_shapes d0] in Henv, Hshapes.
+  assert (Hfok : forall f, In f p -> func_ok f = true) by (rewrite forallb_forall in Hok; exact Hok).
+  assert (Huniq := NoDup_flat_uniq p Hndo).
+  assert (Hin_disj : forall f o, In f p -> In o (fouts f) -> dict_get inputs o = None).
+  { intros f o Hf Ho. apply dget_notin. apply Hdisj. apply in_flat_map. eauto. }
+  assert (Henv' : forall q, (forall f, In f p -> ~ In q (fouts f)) -> dict_get (d_env D) q = dict_get inputs q).
+  { intros q Hq. apply Henv. intros X. apply in_flat_map in X as [f [Hf X]]. exact (Hq f Hf X). }
+  unfold map_run_sel. cbn [validate_fixed lift rbind]. unfold all_shapes. rewrite Hshapes. cbn [lift rbind].
+  destruct (generations_sim body Harity p inputs D HD Hfok Huniq Hin_disj Henv' (generations p) []
+              {| p_store := rs; p_out := []; p_tr := [] |}) as [ps [E1 [E2 [E3 [trx [E4 E5]]]]]].
+  - intros gen f Hg Hf. eapply generations_In; eauto.
+  - exact Hsub.
+  - intros g [].
+  - intros g [].
+  - exact Hpb.
+  - exists ps. split; [exact E1|]. cbn [app p_out p_tr] in E2, E3, E4. split; [intros f Hf; apply E3; now apply Hall|].
+    split; [|split; [now rewrite E4 | exact E2]].
+    intros f o Hf Ho. rewrite E2. rewrite (den_entries_get D (concat (generations p)) f o (Hall f Hf) Ho).
+    apply In_nth_error in Ho as [j Hj].
+    destruct (HD f Hf) as [kw [_ H]]. unfold dval. destruct (is_mapped f).
+    + destruct H as [ms [sh [mask [arrs [_ [_ [_ [_ [_ [_ A7]]]]]]]]]]. destruct (A7 j o Hj) as [_ [a [_ [_ B]]]]. now rewrite B.
+    + destruct H as [outs [_ [_ A3]]]. destruct (A3 j o Hj) as [v [_ [_ B]]]. now rewrite B.
+Qed.
+
 (* the empty store is a sub-store of anything *)
 Lemma fsub_empty body p inputs D g : fsub body p inputs D empty_store g.
 Proof.
@@ -1155,6 +1198,21 @@ Proof.
   intros Ha Hr Hd Ho Hs.
   destruct (pipeline_order_ok_spec p (request_ok_nodup p inputs Hr) Ho) as [A [B C]].
   exact (run_from_substore_denotes body user p inputs D rs Ha Hr Hd A B C Hs).
+Qed.
+
+Theorem full_run_on_substore_outs body user p inputs D rs :
+  body_arity body ->
+  request_ok p inputs = true -> denote_run body p inputs user = Ok D -> pipeline_order_ok p = true ->
+  (forall g, In g p -> fsub body p inputs D rs g) ->
+  exists ps, map_run_sel body p inputs user None rs = ROk ps
+    /\ (forall f, In f p -> ffull body p inputs D (p_store ps) f)
+    /\ (forall f o, In f p -> In o (fouts f) -> dict_get (p_out ps) o = dict_get (d_out D) o)
+    /\ Forall (dump_den body p inputs D) (p_tr ps)
+    /\ p_out ps = flat_map (den_entries D) (concat (generations p)).
+Proof.
+  intros Ha Hr Hd Ho Hs.
+  destruct (pipeline_order_ok_spec p (request_ok_nodup p inputs Hr) Ho) as [A [B C]].
+  exact (run_from_substore_outs body user p inputs D rs Ha Hr Hd A B C Hs).
 Qed.
 
 Theorem map_run_sel_is_map_run body user p inputs D :
